@@ -124,7 +124,10 @@ func traverseNodesWithArrayIndices(context Context, indicesToTraverse []*Candida
 }
 
 func traverseArrayIndices(context Context, matchingNode *CandidateNode, indicesToTraverse []*CandidateNode, prefs traversePreferences) (*list.List, error) { // call this if doc / alias like the other traverse
-	if matchingNode.Tag == "!!null" {
+	if context.DontAutoCreate {
+		prefs.DontAutoCreate = true
+	}
+	if matchingNode.Tag == "!!null" && !prefs.DontAutoCreate {
 		log.Debugf("OperatorArrayTraverse got a null - turning it into an empty array")
 		// auto vivification
 		matchingNode.Tag = ""
@@ -190,6 +193,10 @@ func traverseArrayWithIndices(node *CandidateNode, indices []*CandidateNode, pre
 		}
 		indexToUse := index
 		contentLength := len(node.Content)
+		if prefs.DontAutoCreate && contentLength <= index {
+			// read-only traversal: a missing index yields nothing instead of padding the array
+			continue
+		}
 		for contentLength <= index {
 			if contentLength == 0 {
 				// default to nice yaml formatting
